@@ -72,6 +72,14 @@ var props = map[string]PropMeta{
 		Stub:   []string{"mDNS provider (the harness calls the resolver callback from one task, as both real providers do)", "application (records VisibleRemoteServicesUpdated)"},
 		QuickS: 25, ThoroughS: 360, QuickWorkers: 6,
 	},
+	"C19": {
+		Level: "exploration",
+		Rule: "one run = the real AvahiProvider below a real MdnsManager, on a fake Avahi daemon that mirrors go-avahi's locking (signal goroutine dispatching under the server mutex, blocking channel sends, disconnect callback on its own goroutine); up to 20 events from {daemon disconnect, daemon unavailable for 1-3 connection attempts, available again, auto-accept flip (= new TXT), unannounce, announce, browse result add/remove, resolve failures on/off, pauses} with gaps 0..3 s, optionally Shutdown (and a second Shutdown) at a drawn position x seeded interleaving of API task, reconnect loop, listener and signal goroutines; 12 quiet s after the daemon is reachable again: exactly one live browser and (iff an announcement was last requested) one committed entry group with the most recently requested TXT, a service resolved afterwards reaches the report callback; after Shutdown returned: no daemon call at all, nothing live; Shutdown returns within 5 simulated s and nothing panics or deadlocks; " +
+			"non-trivial = completed runs; distinct = distinct event sequences",
+		Real:   []string{"mdns.AvahiProvider (start, shutdown, announce, reconnect loop, listener)", "mdns.MdnsManager"},
+		Stub:   []string{"Avahi daemon + D-Bus (fake implementing go-avahi's ServerInterface)", "report callback (recorder)"},
+		QuickS: 25, ThoroughS: 420, QuickWorkers: 6,
+	},
 	"C05": {
 		Level: "exploration",
 		Rule: "one run = two real hubs (optionally a third bystander) with generated certificates on the simulated network and mDNS medium: registration before/after Start, start skew 0..30 s, network latency 0..900 ms (optionally asymmetric), mDNS propagation 0..6 s, the dial back-off drawn per attempt (minimum / maximum / any), then 0-4 disturbances from {DisconnectSKI by either side, unsafe close, reset of all connections, half-open link, mDNS outage} at drawn times, then 300 quiet simulated seconds x seeded interleaving of all hub, ship, ws, http and harness tasks; oracle: exactly one transport connection open at both ends, registered on both sides, completed on both sides, a fresh payload crosses in each direction; " +
